@@ -8,18 +8,30 @@ import transport_lib as T
 PROP = 'C04'
 KNOWN_PAIR = ('read_slice', 'write_slice')
 
+PENDING = []
 def coq_compare(name, exprs, cases_txt, broken, corr_name, spec_bad):
-    """Evaluate the Coq model on the cases; a disagreement on a case where the specification held on the
-    implementation is a broken correspondence.  -> number evaluated"""
-    if not exprs: return 0
-    fails, errs = coq_check_cases(name, T.COQ_HEADER, exprs, shard=max(8, (len(exprs) + 15) // 16))
-    for e in errs:
-        broken.append({'kind': 'correspondence', 'name': corr_name + ': coq evaluation failed', 'log': e['log'][-800:]})
-    for i in fails:
-        if i in spec_bad: continue          # already a finding: the implementation left the specification there
-        broken.append({'kind': 'correspondence', 'name': corr_name, 'case': cases_txt[i][:1500]})
-        if len([b for b in broken if b.get('name') == corr_name]) >= 5: break
+    """queue the cases of one group; coq_flush evaluates all groups in one pool of coqc shards"""
+    PENDING.append((exprs, cases_txt, corr_name, spec_bad))
     return len(exprs)
+
+def coq_flush(broken):
+    """Evaluate the Coq model on the queued cases; a disagreement on a case where the specification held on
+    the implementation is a broken correspondence."""
+    allx = [e for g in PENDING for e in g[0]]
+    if not allx: return
+    fails, errs = coq_check_cases('c04_all', T.COQ_HEADER, allx, shard=max(8, (len(allx) + 15) // 16))
+    for e in errs:
+        broken.append({'kind': 'correspondence', 'name': 'coq evaluation of cases failed', 'log': e['log'][-800:]})
+    base = 0
+    for exprs, cases_txt, corr_name, spec_bad in PENDING:
+        n = 0
+        for i in fails:
+            j = i - base
+            if not (0 <= j < len(exprs)) or j in spec_bad: continue      # spec_bad: already a finding
+            broken.append({'kind': 'correspondence', 'name': corr_name, 'case': cases_txt[j][:1500]}); n += 1
+            if n >= 5: break
+        base += len(exprs)
+    del PENDING[:]
 
 def run_check(tier, seed):
     ev = Evidence(PROP, tier, seed)
@@ -33,7 +45,7 @@ def run_check(tier, seed):
     ]
     ev.assumptions = ['x86_64 linux, usize = 64 bit', 'guest memory regions are page aligned (dirty page = guest address / 4096)',
                       'one-shot protocol for unbuffered FuseDevWriter when comparing with the contract (the Coq model also covers the assert! on a second write)']
-    findings = []; broken = []
+    findings = []; broken = []; del PENDING[:]
     rng = random.Random(seed)
     # 1. translator
     table = None
@@ -52,7 +64,7 @@ def run_check(tier, seed):
         return finish(ev, PROP, findings, broken)
     scale = 1 if tier == 'quick' else 8
     if broken: scale *= 4                  # a proof / translator item broke: search harder for a failing input
-    nv, nf, nfr, nb = 240 * scale, 120 * scale, 40 * scale, 30 * scale
+    nv, nf, nfr, nb = 200 * scale, 100 * scale, 30 * scale, 20 * scale
     evals = 0; shapes = set(); samples = []
     coq_ok = audit['ok']
 
@@ -124,6 +136,7 @@ def run_check(tier, seed):
                     broken.append({'kind': 'correspondence', 'name': 'translated table says %s forwards to %s but no run showed a difference' % (a, b)})
             ev.cov['adapter_table'] = table
 
+    coq_flush(broken)
     ev.cov['evaluations'] = evals
     ev.cov['distinct_nontrivial'] = len(shapes)
     ev.cov['rule'] = ('evaluations = operations executed on the real Reader/VirtioFsWriter/FuseDevWriter/FileVolatileSlice (plus one per chain construction), each compared with the '
